@@ -399,7 +399,7 @@ func SetTypeConverter(typ reflect.Type, conv TypeConverter) {
 
 // convertersInProgress holds the types whose converter getTypeConverter is
 // building right now. Guarded by goTypeMutex.
-var convertersInProgress = map[reflect.Type]bool{}
+var convertersInProgress []reflect.Type
 
 // getTypeConverter returns a TypeConverter for the given Go type.
 // The caller must hold the goTypeMutex lock.
@@ -421,15 +421,26 @@ func getTypeConverter(typ reflect.Type) (TypeConverter, error) {
 	// A container type that contains itself, e.g. `type Tree []Tree`, has no
 	// converter: building one would build the converter of its element type
 	// first, which is the type itself, without end (a fatal stack overflow).
-	// Struct types that refer to themselves are fine, the Go type registry
-	// hands out the type under construction.
-	if kind != reflect.Struct {
-		if convertersInProgress[typ] {
+	// A type that comes back to itself through a struct is fine: the Go type
+	// registry hands out the struct type under construction, which ends the
+	// recursion.
+	for i := len(convertersInProgress) - 1; i >= 0; i-- {
+		if convertersInProgress[i] != typ {
+			continue
+		}
+		throughStruct := false
+		for _, t := range convertersInProgress[i:] {
+			if t.Kind() == reflect.Struct || (t.Kind() == reflect.Pointer && t.Elem().Kind() == reflect.Struct) {
+				throughStruct = true
+			}
+		}
+		if !throughStruct {
 			return nil, errz.TypeErrorf("type error: unsupported recursive type %s", typ)
 		}
-		convertersInProgress[typ] = true
-		defer delete(convertersInProgress, typ)
+		break
 	}
+	convertersInProgress = append(convertersInProgress, typ)
+	defer func() { convertersInProgress = convertersInProgress[:len(convertersInProgress)-1] }()
 	var err error
 	var converter TypeConverter
 	switch kind {
